@@ -220,6 +220,49 @@ def run(ctx: Any, prog: Program) -> None:
                         p = kv.parents.get(p)
                     ctx.check('C01.R5', guarded, kv, n, 'replacement of an already parsed child must be reachable only after a PROP_FLAG token')
 
+    # ---- R7: what parse refuses -------------------------------------------------------------------------------------
+    # The writer can put every character into a quoted string; the only content parse may refuse is a line break (LF / CR) in a name
+    # (or, on request, in a value).  A rejection test on the token text that is broader than `'\n' in x or '\r' in x` refuses text
+    # the writer produces.
+    ctx.rule('C01.R7', "Keyvalues.parse refuses string content only for a literal '\\n' / '\\r' (names; values on request)", floor=2)
+    content_vars: Set[str] = set()
+    for n in walk_no_nested(parse):
+        if isinstance(n, ast.Assign) and isinstance(n.value, ast.Call) and dotted(n.value.func) in ('tokenizer', 'next', 'tokenizer.__call__') and isinstance(n.targets[0], ast.Tuple) and len(n.targets[0].elts) == 2 \
+                and isinstance(n.targets[0].elts[1], ast.Name):
+            content_vars.add(n.targets[0].elts[1].id)
+        if isinstance(n, ast.For) and isinstance(n.target, ast.Tuple) and len(n.target.elts) == 2 and isinstance(n.target.elts[1], ast.Name) and 'tokenizer' in ast.unparse(n.iter):
+            content_vars.add(n.target.elts[1].id)
+    if not content_vars:
+        raise AnalysisError('Keyvalues.parse: token value variables not found')
+    BROAD = {'splitlines', 'isprintable', 'isspace', 'isascii', 'isalnum', 'isalpha', 'isidentifier', 'isnumeric', 'isdigit', 'isdecimal', 'strip', 'lstrip', 'rstrip', 'split', 'encode', 'search', 'match', 'fullmatch', 'findall'}
+    n_rej = 0
+    for n in walk_no_nested(parse):
+        if not (isinstance(n, ast.If) and n.body and isinstance(n.body[0], ast.Raise)):
+            continue
+        mentions = [x for x in ast.walk(n.test) if isinstance(x, ast.Name) and x.id in content_vars]
+        if not mentions:
+            continue
+        # atoms of the test that look at the text
+        atoms = []
+        for x in ast.walk(n.test):
+            if isinstance(x, ast.Compare) and any(isinstance(y, ast.Name) and y.id in content_vars for y in ast.walk(x)):
+                atoms.append(x)
+            elif isinstance(x, ast.Call) and any(isinstance(y, ast.Name) and y.id in content_vars for y in ast.walk(x)) and not any(x is z for a in atoms for z in ast.walk(a)):
+                atoms.append(x)
+        for a in atoms:
+            n_rej += 1
+            if isinstance(a, ast.Compare) and len(a.ops) == 1 and isinstance(a.ops[0], ast.In) and isinstance(a.left, ast.Constant) and a.left.value in ('\n', '\r') and isinstance(a.comparators[0], ast.Name):
+                ctx.check('C01.R7', True, kv, a, 'line break test', text=f'rejects {a.left.value!r} in {a.comparators[0].id}')
+                continue
+            calls = {c.func.attr for c in ast.walk(a) if isinstance(c, ast.Call) and isinstance(c.func, ast.Attribute)} | {dotted(c.func) or '' for c in ast.walk(a) if isinstance(c, ast.Call)}
+            if calls & BROAD or any((c or '').startswith('re.') for c in calls):
+                ctx.check('C01.R7', False, kv, a, f'parse refuses a string when `{ast.unparse(a)[:70]}`: that is broader than a literal LF/CR (e.g. str.splitlines also breaks on \\v, \\f, \\x1c-\\x1e, NEL, '
+                          'U+2028/9), so text that serialise() writes is rejected', text=f'content rejection `{ast.unparse(a)[:50]}`')
+            else:
+                ctx.shape('C01.R7', False, kv, a, f'content rejection test `{ast.unparse(a)[:70]}` is not an enumerated form', text=f'content rejection `{ast.unparse(a)[:50]}`')
+    if n_rej < 4:
+        raise AnalysisError(f'Keyvalues.parse: only {n_rej} content rejection tests found (4 confirmed by hand: LF and CR, for names and for values)')
+
 
 def _in_orelse(ifnode: ast.If, node: ast.AST, mod: Any) -> bool:
     cur = node
@@ -229,6 +272,7 @@ def _in_orelse(ifnode: ast.If, node: ast.AST, mod: Any) -> bool:
 
 
 MUTANTS = [
+    {'id': 'key_newline_test_by_splitlines', 'file': 'keyvalues.py', 'find': "                if not newline_keys and ('\\n' in token_value or '\\r' in token_value):", 'replace': "                if not newline_keys and len(token_value.splitlines()) > 1:", 'expect': 'C01.R7'},
     {'id': 'root_test_by_value', 'file': 'keyvalues.py', 'find': "            if self._real_name is None:\n                # If the name is None, we just output the children\n                # without a \"Name\" { } surround. These Keyvalue objects represent the root.\n                for child in self._value:", 'replace': "            if not self._real_name:\n                # If the name is None, we just output the children\n                # without a \"Name\" { } surround. These Keyvalue objects represent the root.\n                for child in self._value:", 'expect': 'C01.R6'},
     {'id': 'name_precomputed_ok', 'file': 'keyvalues.py', 'find': "                file.write(f'{cur_indent}\"{escape_text(self._real_name)}\"\\n')", 'replace': "                name = escape_text(self._real_name)\n                file.write(f'{cur_indent}\"{name}\"\\n')", 'expect': None, 'note': 'negative control: escaped name held in a local'},
     {'id': 'block_name_unescaped', 'file': 'keyvalues.py', 'find': 'file.write(f\'{cur_indent}"{escape_text(self._real_name)}"\\n\')', 'replace': 'file.write(f\'{cur_indent}"{self._real_name}"\\n\')', 'expect': 'C01.R1'},
